@@ -53,7 +53,7 @@ func (p *plugin) CreateContainer(_ context.Context, pod *api.PodSandbox, contain
 		log.Infof("CreateContainer %s", name)
 	}
 
-	limit, err := parseEpcLimit(pod.Annotations, container.Name)
+	limit, err := parseEpcLimit(pod.GetAnnotations(), container.GetName())
 	if err != nil {
 		log.Errorf("failed to parse SGX EPC limit annotation: %v", err)
 		return nil, nil, err
